@@ -181,4 +181,26 @@ theorem send_out_bal {s s' : St} {dst d0 : String} {amt : Nat} (h : send s clpAc
     rw [b]
     grind
 
+/-- a successful swap is a successful core swap whose result differs only in the liquidity-protection
+    threshold -/
+theorem swap_ok {s s' : St} {signer sent recv : String} {amt mn y : Nat}
+    (h : swap s signer sent recv amt mn = .ok (s', y)) :
+    ∃ s4 c, swapCore s signer sent recv amt mn = .ok (s4, y) ∧ s' = { s4 with lpCur := c } := by
+  unfold swap at h
+  obtain ⟨price, _, h⟩ := bind_ok h
+  obtain ⟨⟨s4, y'⟩, hc, h⟩ := bind_ok h
+  obtain ⟨c, _, h⟩ := bind_ok h
+  cases h
+  exact ⟨s4, c, hc, rfl⟩
+
+/-- a successful add is a successful core add whose result differs only in the threshold -/
+theorem addLiquidity_ok {s s' : St} {signer sym : String} {n e : Nat}
+    (h : addLiquidity s signer sym n e = .ok s') :
+    ∃ s0 c, addLiquidityCore s signer sym n e = .ok s0 ∧ s' = { s0 with lpCur := c } := by
+  unfold addLiquidity at h
+  obtain ⟨c, _, h⟩ := bind_ok h
+  obtain ⟨s0, hc, h⟩ := bind_ok h
+  cases h
+  exact ⟨s0, c, hc, rfl⟩
+
 end Sif.Clp
